@@ -38,6 +38,11 @@ static Weights profile_weights(const std::string &prop) {
     else if (prop == "C15") { scale(t, {P::O_REG, P::O_LOOKUP, P::O_CTX_PROBE}, 2); scale(s, {P::O_QUIT, P::O_CTX_PROBE, P::O_CTX_DEREG}, 3); s[P::O_SET_TICK] = 0.5; s[P::O_CTX_FINALIZE] = 0.3; }
     else if (prop == "C03" || prop == "C20") { scale(t, {P::O_FD_REG, P::O_FD_DEREG, P::O_FD_WRITE, P::O_TMR_REG, P::O_TMR_DEREG}, 3); scale(s, {P::O_ERRNO}, 4); }
     else if (prop == "C09") { scale(t, {P::O_FD_REG, P::O_FD_DEREG, P::O_TMR_REG, P::O_TMR_DEREG, P::O_SUB, P::O_UNSUB}, 3); }
+    else if (prop == "C18") {
+        t = {{P::O_SET_TB, 4}, {P::O_TELL, 26}, {P::O_PUB, 6}, {P::O_BCAST, 2}, {P::O_SUB, 4}, {P::O_UNSUB, 1}, {P::O_BECOME, 2}, {P::O_UNBECOME, 2}, {P::O_BATCH_SIZE, 1},
+             {P::O_SLEEP, 7}, {P::O_DISPATCH, 12}, {P::O_DRAIN, 1}, {P::O_STOP, 0.5}, {P::O_START, 1}, {P::O_TMR_REG, 1}, {P::O_TMR_DEREG, 0.3}, {P::O_QUIT, 0.3}, {P::O_REG, 0.5}, {P::O_DEREG, 0.3}};
+        s = {{P::O_TELL, 4}, {P::O_PUB, 2}, {P::O_SUB, 1}, {P::O_BECOME, 1}, {P::O_UNBECOME, 1}, {P::O_STASH, 1}, {P::O_SET_TB, 0.5}};
+    }
     else if (prop == "C04") { scale(t, {P::O_DROP_EVT, P::O_DROP_MODREF, P::O_DEREG}, 2); scale(s, {P::O_REF_EVT, P::O_DEREG, P::O_STOP, P::O_UNSUB}, 2.5); t[P::O_FLOOD] = 0.15; }
     return w;
 }
@@ -72,6 +77,7 @@ static rc::Gen<Op> gen_op_from(const std::map<int, double> &w, int nmods, const 
         case P::O_TMR_REG: ga = gens::range<long>(0, 6); gb = gens::weighted_values<long>({{4, 0}, {1, 1}, {1, 3}, {2, 4}}); break;
         case P::O_TMR_DEREG: ga = gens::range<long>(0, 6); break;
         case P::O_ERRNO: ga = gens::weighted_values<long>({{1, 4}, {1, 11}, {2, 2}, {2, 9}, {1, 32}, {1, 255}, {1, 22}}); break;
+        case P::O_SET_TB: ga = gens::weighted_values<long>({{1, 0}, {2, 50}, {3, 100}, {3, 200}, {2, 500}, {2, 1000}, {1, 333}}); gb = gens::range<long>(1, 9); break;
         case P::O_SLEEP: ga = gens::weighted_values<long>({{2, 1}, {2, 3}, {1, 8}, {1, 25}}); break;
         default: break;
         }
@@ -79,6 +85,65 @@ static rc::Gen<Op> gen_op_from(const std::map<int, double> &w, int nmods, const 
             Op o; o.code = code; o.s = std::get<0>(t); o.t = std::get<1>(t); o.a = std::get<2>(t); o.b = std::get<3>(t); return o; })});
     }
     return gens::weighted<Op>(alts);
+}
+
+
+// ---- phrases: short op sequences that make the interesting shapes frequent (still shrinkable op by op) ----
+static Op mkop(int code, int s = 0, int t = 0, long a = 0, long b = 0) { Op o; o.code = code; o.s = s; o.t = t; o.a = a; o.b = b; return o; }
+
+static rc::Gen<std::vector<Op>> gen_phrase(const Weights &w, int nmods, const std::string &prop) {
+    using namespace rc;
+    auto slot = gens::range<int>(0, nmods);
+    auto single = gen::map(gen_op_from(w.top, nmods, prop), [](Op o) { return std::vector<Op>{o}; });
+    auto deliver = gen::map(gen::tuple(slot, slot, gens::range<long>(1, 4), gens::weighted_values<long>({{4, 0}, {1, 1}})), [](std::tuple<int, int, long, long> t) {
+        return std::vector<Op>{mkop(P::O_TELL, std::get<0>(t), std::get<1>(t), std::get<3>(t)), mkop(P::O_DISPATCH, 0, 0, std::get<2>(t))}; });
+    auto pubdeliver = gen::map(gen::tuple(slot, slot, gens::weighted_values<long>({{3, 0}, {2, 1}, {2, 2}, {1, 3}}), gens::weighted_values<long>({{3, 0}, {2, 4}, {1, 6}, {1, 5}}), gens::weighted_values<long>({{5, 0}, {2, 1}, {2, 3}, {1, 4}}), gens::range<long>(1, 4)),
+        [](std::tuple<int, int, long, long, long, long> t) {
+            long pubtopic = std::get<2>(t); long subtopic = std::get<3>(t) == 0 ? pubtopic : std::get<3>(t);
+            return std::vector<Op>{mkop(P::O_SUB, std::get<1>(t), 0, subtopic, std::get<4>(t)), mkop(P::O_PUB, std::get<0>(t), 0, pubtopic, 0), mkop(P::O_DISPATCH, 0, 0, std::get<5>(t))}; });
+    auto burst = gen::map(gen::tuple(slot, slot, gens::range<long>(2, 13), gens::range<long>(0, 5)), [](std::tuple<int, int, long, long> t) {
+        std::vector<Op> v; for (long i = 0; i < std::get<2>(t); i++) v.push_back(mkop(P::O_TELL, std::get<0>(t), std::get<1>(t), 0));
+        if (std::get<3>(t)) v.push_back(mkop(P::O_DISPATCH, 0, 0, std::get<3>(t)));
+        return v; });
+    auto loopcycle = gen::map(gen::tuple(gens::weighted_values<long>({{2, 0}, {2, 7}, {1, 255}}), gens::range<long>(1, 3)), [](std::tuple<long, long> t) {
+        return std::vector<Op>{mkop(P::O_QUIT, 0, 0, std::get<0>(t)), mkop(P::O_DISPATCH, 0, 0, 1), mkop(P::O_DISPATCH, 0, 0, std::get<1>(t))}; });
+    auto become_cycle = gen::map(gen::tuple(slot, slot, gens::range<long>(0, 4), gens::range<long>(0, 3)), [](std::tuple<int, int, long, long> t) {
+        int s = std::get<0>(t), f = std::get<1>(t);
+        std::vector<Op> v{mkop(P::O_BECOME, s, 0, std::get<2>(t)), mkop(P::O_TELL, f, s), mkop(P::O_DISPATCH, 0, 0, 1)};
+        if (std::get<3>(t) == 0) v.push_back(mkop(P::O_UNBECOME, s)); else if (std::get<3>(t) == 1) { v.push_back(mkop(P::O_STOP, s)); v.push_back(mkop(P::O_START, s)); } else v.push_back(mkop(P::O_BECOME, s, 0, std::get<2>(t) + 1));
+        v.push_back(mkop(P::O_TELL, f, s)); v.push_back(mkop(P::O_DISPATCH, 0, 0, 1));
+        return v; });
+    auto stash_cycle = gen::map(gen::tuple(slot, slot, gens::range<long>(1, 5), gens::weighted_values<long>({{3, 1}, {3, 2}, {2, 3}, {1, 4}, {1, 6}, {2, 0}})), [](std::tuple<int, int, long, long> t) {
+        std::vector<Op> v; for (long i = 0; i < std::get<2>(t); i++) v.push_back(mkop(P::O_TELL, std::get<1>(t), std::get<0>(t)));
+        v.push_back(mkop(P::O_DISPATCH, 0, 0, std::get<2>(t)));
+        v.push_back(mkop(P::O_UNSTASH, std::get<0>(t), 0, std::get<3>(t)));
+        return v; });
+    auto batch = gen::map(gen::tuple(slot, slot, gens::weighted_values<long>({{1, 0}, {1, 1}, {4, 2}, {4, 3}, {2, 5}}), gens::range<long>(1, 8), gens::weighted_values<long>({{2, 0}, {1, 1}})), [](std::tuple<int, int, long, long, long> t) {
+        std::vector<Op> v{mkop(P::O_BATCH_SIZE, std::get<0>(t), 0, std::get<2>(t))};
+        for (long i = 0; i < std::get<3>(t); i++) v.push_back(mkop(P::O_TELL, std::get<1>(t), std::get<0>(t)));
+        v.push_back(std::get<4>(t) ? mkop(P::O_DRAIN) : mkop(P::O_DISPATCH, 0, 0, std::get<3>(t)));
+        return v; });
+    auto tb = gen::map(gen::tuple(slot, slot, gens::weighted_values<long>({{2, 50}, {3, 100}, {3, 200}, {2, 500}, {1, 1000}}), gens::range<long>(1, 7), gens::range<long>(2, 14), gens::weighted_values<long>({{1, 0}, {2, 3}, {2, 12}, {2, 30}, {1, 80}}), gens::range<long>(1, 5)),
+        [](std::tuple<int, int, long, long, long, long, long> t) {
+            int s = std::get<0>(t), r = std::get<1>(t);
+            std::vector<Op> v{mkop(P::O_SET_TB, s, 0, std::get<2>(t), std::get<3>(t))};
+            for (long i = 0; i < std::get<4>(t); i++) v.push_back(mkop(P::O_TELL, s, r));
+            v.push_back(mkop(P::O_SLEEP, 0, 0, std::get<5>(t))); v.push_back(mkop(P::O_DISPATCH, 0, 0, std::get<6>(t)));
+            for (long i = 0; i < std::get<4>(t) / 2 + 1; i++) v.push_back(mkop(P::O_TELL, s, r));
+            return v; });
+    auto fdcycle = gen::map(gen::tuple(slot, gens::range<long>(0, 8), gens::weighted_values<long>({{4, 0}, {2, 1}, {1, 2}, {2, 4}, {1, 5}}), gens::range<long>(1, 4)), [](std::tuple<int, long, long, long> t) {
+        return std::vector<Op>{mkop(P::O_FD_REG, std::get<0>(t), 0, std::get<1>(t), std::get<2>(t)), mkop(P::O_FD_WRITE, 0, 0, std::get<1>(t)), mkop(P::O_DISPATCH, 0, 0, std::get<3>(t))}; });
+    std::map<std::string, std::vector<size_t>> tab = {
+        //            single deliver pub burst loop become stash batch tb fd
+        {"C01", {70, 8, 6, 1, 8, 2, 1, 1, 0, 1}}, {"C02", {45, 12, 22, 6, 6, 2, 1, 2, 0, 1}}, {"C03", {45, 10, 8, 4, 8, 1, 1, 2, 0, 18}},
+        {"C04", {55, 10, 10, 4, 6, 3, 4, 3, 0, 5}}, {"C07", {80, 5, 4, 1, 8, 1, 0, 0, 0, 1}}, {"C08", {35, 12, 12, 18, 10, 1, 1, 10, 0, 1}},
+        {"C09", {80, 4, 8, 1, 3, 0, 0, 0, 0, 6}}, {"C13", {35, 8, 20, 8, 4, 1, 1, 20, 0, 8}}, {"C15", {80, 6, 8, 1, 4, 1, 0, 0, 0, 1}},
+        {"C16", {35, 10, 8, 4, 4, 4, 32, 2, 0, 1}}, {"C17", {35, 10, 4, 2, 4, 40, 4, 1, 0, 1}}, {"C18", {25, 6, 3, 20, 2, 2, 1, 1, 38, 0}},
+        {"C19", {55, 6, 14, 2, 14, 1, 0, 1, 0, 1}}, {"C20", {50, 6, 4, 1, 8, 1, 1, 1, 0, 24}},
+    };
+    auto it = tab.find(prop);
+    std::vector<size_t> ws = it != tab.end() ? it->second : std::vector<size_t>{60, 8, 8, 4, 6, 3, 3, 3, 0, 4};
+    return gens::weighted<std::vector<Op>>({{ws[0], single}, {ws[1], deliver}, {ws[2], pubdeliver}, {ws[3], burst}, {ws[4], loopcycle}, {ws[5], become_cycle}, {ws[6], stash_cycle}, {ws[7], batch}, {ws[8], tb}, {ws[9], fdcycle}});
 }
 
 static rc::Gen<Script> gen_script(const Weights &w, int nmods, const std::string &prop, int kind) {
@@ -89,6 +154,7 @@ static rc::Gen<Script> gen_script(const Weights &w, int nmods, const std::string
         for (int c : {P::O_REG, P::O_DEREG, P::O_START, P::O_PAUSE, P::O_RESUME, P::O_STOP, P::O_PILL, P::O_CTX_DEREG, P::O_QUIT}) sw.erase(c);
     }
     if (kind != P::CB_EVT) { sw.erase(P::O_STASH); sw.erase(P::O_REF_EVT); }
+    if (prop == "C16" && kind == P::CB_EVT) sw[P::O_STASH] = 30;
     return gen::map(gen::tuple(gens::vec<Op>(0, 4, gen_op_from(sw, nmods, prop)), gens::weighted_values<int>({{5, 1}, {2, 0}}), gens::weighted_values<int>({{6, 0}, {1, 4}, {1, 11}, {1, 2}, {1, 9}})),
                     [](std::tuple<std::vector<Op>, int, int> t) { Script s; s.ops = std::get<0>(t); s.ret = std::get<1>(t); s.err = std::get<2>(t); return s; });
 }
@@ -98,17 +164,20 @@ static rc::Gen<Prog> gen_prog(const rt::Args &args) {
     std::string prop = args.prop;
     Weights w = profile_weights(prop);
     return gen::mapcat(gens::weighted_values<int>({{1, 1}, {4, 2}, {4, 3}, {2, 4}}), [=](int nmods) {
+        const size_t evt_lo = (prop == "C16" || prop == "C04") ? 2 : 0, evt_hi = (prop == "C16") ? 8 : 4;
         auto scripts = gens::vec<std::vector<std::vector<Script>>>(nmods, nmods, // per module
-            gen::map(gen::tuple(gen::scale(0.3, gens::vec<Script>(0, 3, gen_script(w, nmods, prop, P::CB_EVAL))),
-                                gen::scale(0.3, gens::vec<Script>(0, 3, gen_script(w, nmods, prop, P::CB_START))),
-                                gen::scale(0.3, gens::vec<Script>(0, 3, gen_script(w, nmods, prop, P::CB_STOP))),
-                                gen::scale(0.3, gens::vec<Script>(0, 4, gen_script(w, nmods, prop, P::CB_EVT)))),
+            gen::map(gen::tuple(gens::vec<Script>(0, 2, gen_script(w, nmods, prop, P::CB_EVAL)),
+                                gens::vec<Script>(0, 2, gen_script(w, nmods, prop, P::CB_START)),
+                                gens::vec<Script>(0, 2, gen_script(w, nmods, prop, P::CB_STOP)),
+                                gens::vec<Script>(evt_lo, evt_hi, gen_script(w, nmods, prop, P::CB_EVT))),
                      [](std::tuple<std::vector<Script>, std::vector<Script>, std::vector<Script>, std::vector<Script>> t) {
                          return std::vector<std::vector<Script>>{std::get<0>(t), std::get<1>(t), std::get<2>(t), std::get<3>(t)}; }));
         auto hooks = gens::vec<int>(nmods, nmods, gens::weighted_values<int>({{2, 0}, {2, 2}, {2, 6}, {2, 7}, {1, 1}, {1, 3}, {1, 4}, {1, 5}}));
         // prelude: context + most modules registered, some started by hand
         auto prelude = gen::tuple(gens::weighted_values<long>({{5, 0}, {3, 1}, {1, 2}, {1, 4}, {1, 5}}), gens::vec<int>(nmods, nmods, gens::weighted_values<int>({{1, 0}, {5, 1}, {3, 2}})));
-        auto body = gen::map(gen::scale(0.45, gen::container<std::vector<Op>>(gen_op_from(w.top, nmods, prop))), [](std::vector<Op> v) { if (v.size() > 45) v.resize(45); return v; });
+        auto body = gen::map(gen::scale(0.25, gen::container<std::vector<std::vector<Op>>>(gen_phrase(w, nmods, prop))), [](std::vector<std::vector<Op>> ph) {
+            std::vector<Op> v; for (auto &p : ph) for (auto &o : p) v.push_back(o);
+            if (v.size() > 70) v.resize(70); return v; });
         return gen::map(gen::tuple(scripts, hooks, prelude, body), [=](std::tuple<std::vector<std::vector<std::vector<Script>>>, std::vector<int>, std::tuple<long, std::vector<int>>, std::vector<Op>> t) {
             Prog p; p.nmods = nmods; p.profile = prop;
             for (int i = 0; i < nmods; i++) {
@@ -121,6 +190,7 @@ static rc::Gen<Prog> gen_prog(const rt::Args &args) {
                 if (pre[i] >= 1) { Op r; r.code = P::O_REG; r.s = i; r.a = 0; r.b = (i % 2); p.ops.push_back(r); }
                 if (pre[i] >= 2) { Op s; s.code = P::O_START; s.s = i; p.ops.push_back(s); }
             }
+            if (std::get<0>(std::get<2>(t)) != 5) { Op d; d.code = P::O_DISPATCH; d.a = 1; p.ops.push_back(d); } // usually start the loop right away
             for (auto &o : std::get<3>(t)) p.ops.push_back(o);
             return p;
         });
@@ -147,7 +217,7 @@ int main(int argc, char **argv) {
     };
     E.to_text = [](const Prog &p) { return prog::to_text(p); };
     E.from_text = [](const std::string &s, Prog &p) { return prog::from_text(s, p); };
-    E.default_cases = [](const rt::Args &a) { return a.tier == "thorough" ? 40000L : 2500L; };
+    E.default_cases = [](const rt::Args &a) { if (a.prop == "C18") return a.tier == "thorough" ? 6000L : 350L; return a.tier == "thorough" ? 40000L : 2500L; };
     E.fork_eval = true;
     return rcm::run(argc, argv, E);
 }
